@@ -247,6 +247,10 @@ func normaliseRound(repoDir string, orig, cur *packages.Package, overlay map[str
 			in.why[obj] = "named by a test file"
 		case fd.Type.TypeParams != nil && len(fd.Type.TypeParams.List) > 0:
 			in.why[obj] = "generic"
+		case pureStringPredicateDecl(fd, in.info):
+			// a byte loop over its string argument with a yes / no answer: judged as a function
+			// (purepred.go), not as a loop inside its caller
+			in.why[obj] = "a pure predicate on a string (kept as a function)"
 		default:
 			if r := unsuitableBody(fd, in.info); r != "" {
 				in.why[obj] = r
